@@ -52,11 +52,19 @@ Rm(S, G, k) ==
 (* With sub, the procedure items below k are cloned as well and the clones call the clones.       *)
 DupName(n, sfx, msfx) == ProcItem(IF n.scope = "" THEN "" ELSE n.scope \o (IF msfx = "" THEN sfx ELSE msfx), n.local \o sfx)
 
+\* the procedure items named k that a processed routine depends on, and the items that get a clone
+DupHeads(G, k) == LET PN == ProcNodes(G) IN {q \in PN : q.local = k /\ \E p \in PN : <<p, q>> \in G.edges}
+DupSet(G, k, sub) ==
+  LET PN == ProcNodes(G)
+      procEdges == {e \in G.edges : e[1] \in PN /\ e[2] \in PN}
+  IN IF sub THEN ReachFrom(procEdges, DupHeads(G, k)) ELSE DupHeads(G, k)
+\* the file (stem) the clone of item n is put into
+DupStem(n, sfx, msfx) == IF n.scope = "" THEN n.local \o sfx ELSE n.scope \o (IF msfx = "" THEN sfx ELSE msfx)
+
 Dup(S, G, k, sfx, msfx, sub) ==
   LET PN == ProcNodes(G)
-      heads == {q \in PN : q.local = k /\ \E p \in PN : <<p, q>> \in G.edges}
-      procEdges == {e \in G.edges : e[1] \in PN /\ e[2] \in PN}
-      D == IF sub THEN ReachFrom(procEdges, heads) ELSE heads            \* the items that get a clone
+      heads == DupHeads(G, k)
+      D == DupSet(G, k, sub)            \* the items that get a clone
       ms == IF msfx = "" THEN sfx ELSE msfx
       cmods == {n.scope : n \in D} \ {""}                                  \* modules that are cloned
       \* a call inside a clone is diverted to the clone of its callee (only when the subgraph is cloned)
